@@ -1,6 +1,6 @@
 (* Proofs/C13_Main.v - the statements of Properties/C13.v assembled from the lemma files. *)
 From RU Require Import Base.Prelude Base.Utf8 Base.U32_c13 Gen.Tables Model.Punycode Spec.Rfc3492
-  Proofs.C13_Ascii Proofs.C13_Bounds Proofs.C13_Enc Proofs.C13_Dec Proofs.C13_Known Proofs.C13_Vli.
+  Proofs.C13_Ascii Proofs.C13_Bounds Proofs.C13_Enc Proofs.C13_Dec Proofs.C13_Known Proofs.C13_Vli Proofs.C13_Rt.
 
 Lemma not_known2 p : ~ Known_C13_2 p -> len p <= U32_MAX.
 Proof. unfold Known_C13_2. lia. Qed.
@@ -39,15 +39,20 @@ Definition enc_dec_statement : Prop :=
   forall cfg p s, ~ Known_C13_2 p -> decode cfg p = Ok s -> has_non_ascii s = true ->
     exists q, encode cfg s = Ok q /\ eq_upto_digit_case q p.
 
-(* what is proved of decode (encode s) = s: relative to Bootstring being invertible over unbounded
-   integers on s (the RFC's claim, premise RT), the u32 code can fail only by returning None, never by
-   returning another string; both directions refine the unbounded algorithms *)
-Lemma dec_enc_partial : forall cfg s p s', s_decode (s_encode s) = Some s -> ~ Known_C13_2 p ->
-  encode cfg s = Ok p -> decode cfg p = Ok s' -> s' = s.
+(* what is proved of decode (encode s) = s: Bootstring over unbounded integers is invertible
+   (s_round_trip), both u32 functions refine the unbounded ones, hence the u32 round trip can fail
+   only by the decoder returning None - never by returning another string *)
+Lemma dec_enc_partial : forall cfg s p, usv_list s -> encode cfg s = Ok p -> ~ Known_C13_2 p ->
+  p = s_encode s /\ s_decode p = Some s /\ (decode cfg p = Ok s \/ decode cfg p = Err).
 Proof.
-  intros cfg s p s' RT Hk He Hd.
+  intros cfg s p Hu He Hk.
   destruct (encode_safe cfg s) as [E|E]; rewrite E in He; [discriminate|]. inversion He. subst p.
-  apply decode_refines in Hd; [|apply not_known2; exact Hk]. rewrite RT in Hd. inversion Hd. reflexivity.
+  split; [reflexivity|]. split; [exact (s_round_trip s Hu)|].
+  destruct (decode cfg (s_encode s)) as [s'| |site] eqn:Hd.
+  - left. apply decode_refines in Hd; [|apply not_known2; exact Hk].
+    rewrite (s_round_trip s Hu) in Hd. inversion Hd. reflexivity.
+  - right. reflexivity.
+  - exfalso. exact (decode_with_no_panic cfg U8External (s_encode s) (not_known2 _ Hk) site Hd).
 Qed.
 
 Lemma enc_dec_partial : forall cfg p s q, ~ Known_C13_2 p ->
